@@ -2,6 +2,9 @@
 # try_mut.sh <patch.diff> <check-id>...: apply a seeded change to /repo, run the quick checks, undo it.
 P=$1; shift
 git -C /repo status --short | grep -q . && { echo "/repo not clean"; exit 2; }
+# evidence written while /repo is modified must not replace the evidence of the unchanged tree
+rm -rf /tmp/evidence.keep; cp -r /verif/evidence /tmp/evidence.keep
+trap 'rm -rf /verif/evidence; mv /tmp/evidence.keep /verif/evidence' EXIT
 git -C /repo apply "$P" || exit 2
 for id in "$@"; do
   echo "=== $id"
